@@ -365,6 +365,12 @@ class Counters(EngineBase):
                     "ev": "proc_tick", "pid": rng.choice(pids),
                     "utime": rng.randrange(0, 300),
                     "stime": rng.randrange(0, 300)}})
+                if rng.random() < 0.4:
+                    # it reaped a busy child / waited for the disk
+                    ops[-1]["ev"].update(
+                        cutime=rng.randrange(0, 400),
+                        cstime=rng.randrange(0, 400),
+                        blkio=rng.randrange(0, 50))
             interval = rng.choice([None, None, 0, 0.0, 0.001, 0.1, 1, 5, -1,
                                    None, 0.25])
             r = rng.random()
